@@ -224,6 +224,11 @@ def run_listed(mcv):
     res = {"mcv": mcv, "viol": [], "judged": 0}
     for draw in range(3):
         _run_listed_once(chk, build, ev, sp, mcv, draw, res)
+    # Nanos6 task execute/end also in the legacy shape that the model still accepts
+    # (with a warning): a child run inline while the parent body is running and
+    # another region is open on top
+    if mcv in ("6Tx", "6Te"):
+        _run_listed_once(chk, build, ev, sp, mcv, 9, res, state="nested")
     # a long run of the same event (bursts of identical events, a loop entering and
     # leaving one region): what is legal once stays legal the 200th time
     _run_listed_repeated(chk, build, ev, sp, mcv, res)
@@ -247,7 +252,18 @@ def _run_listed_once(chk, build, ev, sp, mcv, draw, res, state=None):
     if ctx is None:
         return res
     pro, e, epi, vals = ctx
-    if state:
+    if state == "nested":
+        mk = obs.u32
+        typ = ("6Yc", mk(5) + b"ty\0", True)
+        pro = [typ, ("6Tc", mk(8, 5), False), ("6Tc", mk(9, 5), False), ("6Tx", mk(8), False), ("6U[", b"", False)]
+        if mcv == "6Tx":
+            epi = [("6Te", mk(9), False), ("6U]", b"", False), ("6Te", mk(8), False)]
+        else:
+            pro = pro + [("6Tx", mk(9), False)]
+            epi = [("6U]", b"", False), ("6Te", mk(8), False)]
+        vals = {"taskid": 9}
+        e = (mcv, mk(9), False)
+    elif state:
         pro = STATE_CTX[state][0] + pro
         epi = epi + STATE_CTX[state][1]
     wd = os.path.join(chk.scratch, "l-%d" % os.getpid())
